@@ -7,6 +7,7 @@ import (
 	"flag"
 	"fmt"
 	"os"
+	"os/exec"
 	"path/filepath"
 	"runtime/pprof"
 	"sort"
@@ -144,6 +145,27 @@ func prepare(o *options, pp *PlanProperty, hs []PlanHarness, load bool) *loaded 
 	}
 	ovJS := filepath.Join(build, "overlay.json")
 	writeOverlayJSON(ovJS, ov)
+	if pg := pp.Pregen; pg != nil {
+		outDir := filepath.Join(build, "gen", "pregen")
+		os.MkdirAll(outDir, 0o755)
+		cmd := exec.Command("go", "run", "-overlay", ovJS, "./"+pg.Cmd, outDir)
+		cmd.Dir = o.repo
+		cmd.Env = goEnv()
+		if out, err := cmd.CombinedOutput(); err != nil {
+			pregenFailure(o, build, "the generator failed: "+err.Error()+"\n"+string(out))
+		}
+		files, _ := filepath.Glob(filepath.Join(outDir, "*.go"))
+		for _, f := range files {
+			ov.Files[filepath.Join(o.repo, pg.Out, filepath.Base(f))] = f
+		}
+		writeOverlayJSON(ovJS, ov)
+		cmd = exec.Command("go", "build", "-overlay", ovJS, "./"+pg.Out)
+		cmd.Dir = o.repo
+		cmd.Env = goEnv()
+		if out, err := cmd.CombinedOutput(); err != nil {
+			pregenFailure(o, build, "the generated package does not compile: "+err.Error()+"\n"+string(out))
+		}
+	}
 	ld := &loaded{ov: ov, build: build, ovJS: ovJS, pkgs: map[string]*ssa.Package{}}
 	if !load {
 		return ld
@@ -191,6 +213,22 @@ func prepare(o *options, pp *PlanProperty, hs []PlanHarness, load bool) *loaded 
 	ld.prog = prog
 	ld.durS = time.Since(t0).Seconds()
 	return ld
+}
+
+// pregenFailure: the code generator of the working tree failed, or its output does not compile:
+// for C13 that is the violation itself (the replay is the compiler output).
+func pregenFailure(o *options, build, msg string) {
+	outDir := filepath.Join(o.verif, "out", o.prop)
+	os.MkdirAll(outDir, 0o755)
+	path := filepath.Join(outDir, "generated_code_failure.txt")
+	os.WriteFile(path, []byte(msg), 0o644)
+	fmt.Println(firstLine(msg))
+	if o.prop == "C13" {
+		fmt.Printf("VIOLATION property=%s replay=%s\n", o.prop, path)
+		os.Exit(1)
+	}
+	fmt.Fprintln(os.Stderr, "gosx: "+msg)
+	os.Exit(2)
 }
 
 type harnessResult struct {
